@@ -54,9 +54,30 @@ func collIndex(s string) int {
 }
 
 type collEnv struct {
-	fkey    [collUniverseSize][]byte // F(universe[i]) once defined
-	defined [collUniverseSize]bool
-	kmode   int
+	fkey     [collUniverseSize][]byte // F(universe[i]) once defined
+	defined  [collUniverseSize]bool
+	inserted [collUniverseSize]bool
+	kmode    int
+}
+
+// onInsert: the collator tells the STORED strings apart (the property's premise); a string that is only probed
+// or deleted while absent may collate equal to a stored one (canonically equivalent spellings do).
+// K1 = proper-prefix relation between the collation keys of two stored strings.
+func (e *collEnv) onInsert(u int) {
+	if e.inserted[u] {
+		return
+	}
+	bad := false
+	for j := range e.fkey {
+		if e.inserted[j] && j != u {
+			vpAssume(!vpEqBytes(e.fkey[j], e.fkey[u]))
+			bad = vpOr(bad, properPrefixRel(e.fkey[j], e.fkey[u]))
+		}
+	}
+	if e.kmode == 0 {
+		vpAssume(!bad)
+	}
+	e.inserted[u] = true
 }
 
 // key spec: universe index | F length << 4
@@ -80,17 +101,6 @@ func (e *collEnv) define(spec int) int {
 			}
 		} else {
 			f = vpBytes(fl & 0xff)
-		}
-		// the collator tells the strings apart; K1 = proper-prefix relation between two keys
-		bad := false
-		for j := range e.fkey {
-			if e.defined[j] && j != u {
-				vpAssume(!vpEqBytes(e.fkey[j], f))
-				bad = vpOr(bad, properPrefixRel(e.fkey[j], f))
-			}
-		}
-		if e.kmode == 0 {
-			vpAssume(!bad)
 		}
 		e.fkey[u] = f
 		vpCollDefine(collString(u), f)
@@ -118,8 +128,10 @@ func hkColl[K chars | []rune](e *collEnv, conv func(string) K, back func(K) stri
 		return 0
 	}
 	return &hk[K]{
-		scratch: true,
-		lv:      lv,
+		scratch:     true,
+		retainSlack: 128, // the collation buffer keeps the last key
+		onInsert:    func(k K) { e.onInsert(idx(k)) },
+		lv:          lv,
 		state: func(t Tree[K, uint64]) vpTreeState {
 			tt := t.(*collationSortedTree[K, uint64])
 			return vpTreeState{tt.root, tt.size, lv}
